@@ -643,7 +643,12 @@ def generated_labels(seed, n_ascii, n_utf8, n_odl):
     # hand-written: a line that consists of END alone inside a multi-line quoted string / comment is not the END statement
     for text, kind in (('NOTE = "first line\nEND\nlast line"\na = 1\nEND\n', "hand-END-line-inside-string"),
                        ('a = 1\n/* a comment\nEnd\n   goes on */\nb = (1,\n 2)\nEND\n', "hand-END-line-inside-comment"),
-                       ("d = 'x\n  end  \ny'\nEND\n", "hand-end-line-inside-symbol")):
+                       ("d = 'x\n  end  \ny'\nEND\n", "hand-end-line-inside-symbol"),
+                       # a dash continuation before every kind of line end: text-mode routes translate the line ends, the
+                       # bytes / binary / decode_by_char routes do not
+                       ("DESC = first-\r\n   second\r\nb = 2\r\nEND\r\n", "hand-crlf-dash-continuation"),
+                       ("DESC = first-\r   second\rb = 2\rEND\r", "hand-cr-dash-continuation"),
+                       ("DESC = first-\n\tsecond\nb = 2\nEND\n", "hand-lf-dash-continuation")):
         out.append((text, kind, rng.randrange(1 << 30)))
     return out
 
